@@ -107,6 +107,9 @@ def assume_spec_shape(eng, st, v):
                                         a_of(z3.Select(st.get("dval", AT), k)) != a_of(v)))):
         st.assume(z3.Implies(is_ref(m), g))
     st.assume(z3.Implies(is_ref(v), z3.And(a_of(v) >= 1000, a_of(v) < st.alloc, st.get("cls_of", a_of(v)) >= 200)))
+    # the library's own "still constructing" flag is a bool where it exists
+    xi = lookup(eng, st, v, "__spec_class_initializing__")
+    st.assume(z3.Or(is_absent(xi), is_bool(xi)))
     # A-RECV: the objects these functions operate on are not instances of (subclasses of) immutable built-in scalar
     # types (int, str, bytes, module ...): spec classes and the receivers of mutate_attr do not derive from them
     st.assume(z3.Not(leaf(st, v)))
